@@ -9,8 +9,14 @@ Env == [s \in {"x", "y", "x1", "_a", "alpha_2"} |-> CASE s = "x" -> VRat(<<3, 2>
 RECURSIVE HasFloat(_), HasFloatSeq(_, _)
 HasFloatSeq(a, i) == IF i > Len(a) THEN FALSE ELSE HasFloat(a[i]) \/ HasFloatSeq(a, i + 1)
 HasFloat(t) == IF t.k \in {"Dbl", "CDbl"} THEN TRUE ELSE HasFloatSeq(t.a, 1)
+\* a double that is infinite or not a number prints as inf / nan, which the parser reads as the symbolic objects: such
+\* expressions are outside the parseable fragment
+RECURSIVE NonFinite(_), NonFiniteSeq(_, _)
+NonFiniteSeq(a, i) == IF i > Len(a) THEN FALSE ELSE NonFinite(a[i]) \/ NonFiniteSeq(a, i + 1)
+NonFinite(t) == IF t.k = "Dbl" THEN t.s \notin {"fin", "zero"} ELSE NonFiniteSeq(t.a, 1)
 One(r, i) ==
     IF r.excs[i] = "VerifAssertionError" THEN "bad:assertion"
+    ELSE IF r.orig[i].k # "Null" /\ NonFinite(r.orig[i]) THEN "unk"
     ELSE IF r.excs[i] # "" THEN (IF r.orig[i].k = "Null" THEN "unk" ELSE "bad:exception:" \o r.excs[i])
     ELSE IF r.back[i] = r.orig[i] THEN (IF r.eqs[i] = 1 THEN "ok" ELSE "bad:eq-false-on-identical-dumps")
     ELSE IF HasFloat(r.orig[i]) THEN (IF Cmp3(Val(r.back[i], Env), Val(r.orig[i], Env)) = "ne" THEN "bad:value(float)" ELSE "unk")
